@@ -22,6 +22,7 @@ Node kinds (tuples):
   ("IF", flag, body)   ("FOR", var, n, body)   ("TRY", body, handler)   ("RAISE", tag)
   ("TF", body)                              <%text filter="fz">-like filtered block: <%block filter="fz">
   ("INC", uri)                              <%include file=uri/>
+  ("CP",)                                   caller probe: ${'C1' if caller else 'C0'}
 Defs: {"name", "sig": [(name, kind, default)], "buffered", "filter", "decorator", "body", "nested": [defs]}
 """
 import inspect
@@ -189,6 +190,8 @@ def emit_nodes(nodes, out):
             out.append('<%%include file="%s"/>' % n[1])
         elif k == "LI":
             out.append("${loop.index}")
+        elif k == "CP":
+            out.append("${'C1' if caller else 'C0'}")
         elif k == "NB":
             out.append("${next.body()}")
         elif k == "RF":
@@ -474,6 +477,9 @@ class Model:
                 self.write("rf")
             elif k == "LI":
                 self.write(str(scope["loops"][-1]))
+            elif k == "CP":
+                # caller probe: every def invocation has its own caller, none when called plainly
+                self.write("C1" if scope["caller"] is not None else "C0")
             elif k == "NB":
                 cdoc = self.child
                 sub = Model(cdoc, self.context, self.includes, self.buffer_filters, self.boom_mode, self.include_handler)
